@@ -9,7 +9,7 @@ import (
 
 func init() {
 	register("C42", []string{"."}, runC42)
-	propExplain["C42"] = "Decides lock-discipline clauses of C42 (races are dynamic; this is the static part): every access to a field that DB.mu protects (the fields of the DB.mu struct, minus the documented atomics / pipeline-protected fields) happens with DB.mu held, established by an intra-procedural lock state plus requires-held summaries over static and interface callees, with the calling context of every root (exported entry points, goroutine bodies, callbacks) either holding the lock or documented; the same analysis for the version set's second lock: the MANIFEST writer (versionSet.manifest) and latest.blobFiles, which UpdateVersionLocked mutates while DB.mu is released, are accessed only between logLock and logUnlock; and the documented lock order is respected: no function acquires commitPipeline.mu while it holds DB.mu. Does not decide data races on unprotected fields, deadlock freedom in general, or panics."
+	propExplain["C42"] = "Decides lock-discipline clauses of C42 (races are dynamic; this is the static part): every access to a field that DB.mu protects (the fields of the DB.mu struct, minus the documented atomics / pipeline-protected fields) happens with DB.mu held, established by an intra-procedural lock state plus requires-held summaries over static and interface callees, with the calling context of every root (exported entry points, goroutine bodies, callbacks) either holding the lock or documented; the same analysis for the version set's second lock: the MANIFEST writer (versionSet.manifest) and latest.blobFiles, which UpdateVersionLocked mutates while DB.mu is released, are accessed only between logLock and logUnlock; and the documented lock order is respected: no function acquires commitPipeline.mu while it holds DB.mu. (F1) the in-progress flags that serialise work across drops of DB.mu (compact.flushing, versionSet.writing) are set only on the edge where they were tested clear, and only by their owner functions. Does not decide data races on unprotected fields, deadlock freedom in general, or panics."
 	propTechnique["C42"] = "lockset analysis for two locks (SSA lock state + requires-held summaries over the call graph), lock-order check"
 }
 
@@ -93,6 +93,23 @@ func runC42(c *Ctx) {
 	c.Note("C42.L1: %d accesses to DB.mu-protected fields analysed", n)
 	c.Ob("C42.L1", nil, "DB.mu-protected field accesses analysed", "", n > 50, "")
 	runC42L3(c)
+	// F1: the two other "in progress" flags that serialise work across drops of DB.mu are taken
+	// only where they were seen clear: one flush goroutine at a time, one MANIFEST writer at a time.
+	if fn := c.Fn("C42.F1", "p.(*DB).maybeScheduleFlush"); fn != nil {
+		if n := c.FlagOwnership("C42.F1", fn, c.Field("C42.F1", "p.DB.mu.compact.flushing"), "a flush is started only by the caller that saw no flush in progress"); n == 0 {
+			c.Unresolved("C42.F1", "compact.flushing = true not found in maybeScheduleFlush")
+		}
+	}
+	if fn := c.Fn("C42.F1", "p.(*versionSet).logLock"); fn != nil {
+		if n := c.FlagOwnership("C42.F1", fn, c.Field("C42.F1", "p.versionSet.writing"), "the manifest log lock is taken only where it was seen free"); n == 0 {
+			c.Unresolved("C42.F1", "writing = true not found in versionSet.logLock")
+		}
+	}
+	c.Who("C42.F1", And(StoreTo(c.Field("C42.F1", "p.DB.mu.compact.flushing")), Pred("= true", func(in ssa.Instruction) bool {
+		k, ok := in.(*ssa.Store).Val.(*ssa.Const)
+		return ok && k.Value != nil && k.Value.String() == "true"
+	})), "compact.flushing is set only by maybeScheduleFlush", "p.(*DB).maybeScheduleFlush")
+	c.Who("C42.F1", StoreTo(c.Field("C42.F1", "p.versionSet.writing")), "versionSet.writing is written only by logLock/logUnlock", "p.(*versionSet).logLock", "p.(*versionSet).logUnlock")
 	// L2: lock order DB.mu -> commitPipeline.mu is forbidden (commit.mu is acquired first)
 	commitMuF := c.Field("C42.L2", "p.commitPipeline.mu")
 	commitLock := M{Desc: "commitPipeline.mu.Lock", F: func(in ssa.Instruction) bool {
